@@ -51,6 +51,11 @@ def _sql(st: str, rnd: random.Random) -> str:
     if k == "u":
         t, kk, v = st[1:].split(".")
         return f"update t{t} set v = {v} where k = {kk}"
+    if st.startswith("mu"):
+        t, kk, v = st[2:].split(".")
+        # a successful MERGE that updates the row with key kk (same effect as the UPDATE; several engine statements)
+        return (f"merge into t{t} using (select {kk} as k, {v} as v) as src on t{t}.k = src.k "
+                f"when matched then update set v = src.v")
     if st.startswith("fm"):
         t = st[2:] or "0"
         # a MERGE (fakesnow runs it as several engine statements) whose clauses name a missing column: fails after its first part
@@ -82,6 +87,10 @@ def _canon(st: str, cur) -> str:
     elif k == "u":
         if len(rows) == 1 and len(rows[0]) == 2 and rows[0][1] == 0:
             return f"n{rows[0][0]}"
+    elif k == "m":
+        # MERGE answers its update count as a Decimal, and NULL instead of 0 when nothing matched (C12's business)
+        if len(rows) == 1 and len(rows[0]) == 1:
+            return f"n{int(rows[0][0] or 0)}"
     elif k == "k":
         if rows == [(1,)]:
             return "1"
@@ -192,6 +201,9 @@ CORE_SCRIPTS = [
     ["fm@", "i@.1.1", "r", "s@"],
     ["fm@", "u@.9.4", "c", "d@.9"],
     ["b", "fm@", "i@.3.3", "c"],
+    # regression for repair 0e75b9f: MERGEs (also failing ones) of two connections in overlapping transactions, on different
+    # tables, both commit (they used to collide on a bogus comment row for the temporary MERGE_CANDIDATES table)
+    ["b", "mu@.9.4", "s@", "c"],
 ]
 # scripts with a statement in a known-defect region
 FINDING_SCRIPTS = [
@@ -253,7 +265,7 @@ def _random_script(rnd, c: int, n: int, envelope: bool) -> list[str]:
         elif r < 0.89:
             out.append(f"u{c}.{rnd.choice([0, 1, 2, 3, 9])}.{rnd.randrange(10)}")
         elif r < 0.93:
-            out.append(rnd.choice(["ft", "fc"] + ([] if intx else [f"fm{c}"])))   # MERGE only in autocommit here (see _merge_clash)
+            out.append(rnd.choice(["ft", "fc", f"fm{c}", f"mu{c}.9.{rnd.randrange(10)}"]))
         elif r < 0.96:
             out.append("k")
         elif envelope:
@@ -303,6 +315,7 @@ def _cases(chk) -> list[dict]:
         (CORE_SCRIPTS[0], CORE_SCRIPTS[3]), (CORE_SCRIPTS[1], CORE_SCRIPTS[0]), (CORE_SCRIPTS[5], CORE_SCRIPTS[3]),
         (FINDING_SCRIPTS[0], CORE_SCRIPTS[10]), (FINDING_SCRIPTS[1], CORE_SCRIPTS[10]),
         (CORE_SCRIPTS[12], CORE_SCRIPTS[10]), (CORE_SCRIPTS[13], CORE_SCRIPTS[3]), (CORE_SCRIPTS[14], CORE_SCRIPTS[0]),
+        (CORE_SCRIPTS[15], CORE_SCRIPTS[15]), (CORE_SCRIPTS[14], CORE_SCRIPTS[15]), (CORE_SCRIPTS[15], CORE_SCRIPTS[12]),
     ]
     for a, b in fixed:
         order = [0] * len(a) + [1] * len(b)
@@ -312,14 +325,6 @@ def _cases(chk) -> list[dict]:
     pairs = [(a, b) for a in range(len(CORE_SCRIPTS)) for b in range(len(CORE_SCRIPTS))]
     rnd.shuffle(pairs)
     npairs = 16 if quick else len(pairs)
-    # envelope: a MERGE inside a transaction is not overlapped with another connection's MERGE – fakesnow records a (bogus)
-    # comment row for the temporary MERGE_CANDIDATES table in `_fs_tables_ext`, so two such transactions write the same
-    # primary key and the later COMMIT fails (observed; reported in design/C13.md; the user-level writes are disjoint)
-    def _merge_clash(x, y):
-        intx = lambda sc: "b" in sc and any(t.startswith("fm") for t in sc[sc.index("b"):])  # noqa: E731
-        has = lambda sc: any(t.startswith("fm") for t in sc)  # noqa: E731
-        return (intx(x) and has(y)) or (intx(y) and has(x))
-    pairs = [(ia, ib) for ia, ib in pairs if not _merge_clash(CORE_SCRIPTS[ia], CORE_SCRIPTS[ib])]
     for pi, (ia, ib) in enumerate(pairs[:npairs]):
         a, b = _inst(CORE_SCRIPTS[ia], 0), _inst(CORE_SCRIPTS[ib], 1)
         policy = ("dense", "others", "sparse", "others")[pi % 4] if quick else None
@@ -351,7 +356,7 @@ def _cases(chk) -> list[dict]:
 
 def _line(case, shared=False) -> str:
     init = "|".join(",".join(f"{a}.{b}" for a, b in t) for t in case["init"])
-    evs = [re.sub(r":fm\d*$", ":fm", e) for e in case["events"]]
+    evs = [re.sub(r":mu", ":u", re.sub(r":fm\d*$", ":fm", e)) for e in case["events"]]
     return "\t".join(["tx", "run", "1" if shared else "0", init, ";".join(evs)])
 
 
